@@ -1,6 +1,6 @@
 (* C14 — Behaviour is independent of index type, shard count, I/O type and limits. *)
 From KV Require Import Bytes GenConsts Chunk Record Engine Script AMapLemmas EngineInv EngineBatch
-  EngineRefine EngineLog EngineRecover.
+  EngineRefine EngineLog EngineRecover EngineCrash EngineOpen EngineAdopt EngineMerge EngineKeep EngineMergeRun Index IndexProofs.
 Open Scope N_scope.
 
 (* two scripts that differ only in the configurations their restarts reopen with *)
@@ -54,6 +54,53 @@ Proof.
   rewrite (proj1 (run_refines ops _ _ [] _ _ _ HI2 HR2 Hnr Hr2)). reflexivity.
 Qed.
 Print Assumptions C14_results_independent_with_merges.
+
+(* The same with merges AND restarts anywhere: two runs that issue the same calls - under any configurations,
+   reopening under any configurations, each Merge scanning its input files in whatever order (the engine
+   ranges over a Go map) - return the same results.  Corollary of the invariant G of C06. *)
+Definition erase2 (o : op) : op :=
+  match o with OpRestart _ => OpRestart (mkCfg 0 0 0 0) | OpMerge _ => OpMerge [] | _ => o end.
+Lemma sstep_erase2 m o : sstep m (erase2 o) = sstep m o.
+Proof. destruct o; reflexivity. Qed.
+Lemma srun_erase2 : forall ops m, srun m (map erase2 ops) = srun m ops.
+Proof. induction ops as [|o ops IH]; intros m; cbn [map srun]; [reflexivity|].
+  rewrite sstep_erase2. destruct (sstep m o) as [m' r]. rewrite IH. reflexivity. Qed.
+
+Theorem C14_results_independent_with_merges_and_restarts :
+  forall c1 c2 ops1 ops2 d1 k1 e1 d2 k2 e2 s1 rs1 ev1 s2 rs2 ev2,
+  map erase2 ops1 = map erase2 ops2 ->
+  db_open c1 empty_disk = (OpenOk d1 k1, e1) -> db_open c2 empty_disk = (OpenOk d2 k2, e2) ->
+  ops_ok (d1, k1) ops1 -> ops_ok (d2, k2) ops2 ->
+  run (d1, k1) ops1 = (s1, rs1, ev1) -> run (d2, k2) ops2 = (s2, rs2, ev2) ->
+  map proj rs1 = map proj rs2.
+Proof.
+  intros c1 c2 ops1 ops2 d1 k1 e1 d2 k2 e2 s1 rs1 ev1 s2 rs2 ev2 Hsame Ho1 Ho2 Hok1 Hok2 Hr1 Hr2.
+  destruct (open_empty_G c1) as (d10 & k10 & e10 & Ho10 & HG1).
+  destruct (open_empty_G c2) as (d20 & k20 & e20 & Ho20 & HG2).
+  rewrite Ho1 in Ho10. injection Ho10 as <- <- _. rewrite Ho2 in Ho20. injection Ho20 as <- <- _.
+  rewrite (proj1 (run_G ops1 _ _ [] _ _ _ HG1 Hok1 Hr1)).
+  rewrite (proj1 (run_G ops2 _ _ [] _ _ _ HG2 Hok2 Hr2)).
+  rewrite <- (srun_erase2 ops1), <- (srun_erase2 ops2), Hsame. reflexivity.
+Qed.
+Print Assumptions C14_results_independent_with_merges_and_restarts.
+
+(* Index type and shard count: for the same index content, ANY two assignments of keys to shards, any two
+   shard counts and any two kinds of shard iterator (B-tree, skip list, hash map) give an iterator with the
+   same observations after every legal call sequence - both equal the reference iterator of C10. *)
+Theorem C14_iteration_independent_of_index_type_and_sharding :
+  forall shf1 n1 kind1 shf2 n2 kind2, (0 < n1)%nat -> (0 < n2)%nat ->
+  forall rev prefix ix, sorted ix -> forall ops,
+    legal rev (refF rev prefix ix) CAll ops ->
+    let a := di_new kind1 rev prefix (shards_of shf1 n1 rev ix) in
+    let b := di_new kind2 rev prefix (shards_of shf2 n2 rev ix) in
+    di_obs a = di_obs b /\ di_run a ops = di_run b ops.
+Proof.
+  intros shf1 n1 kind1 shf2 n2 kind2 H1 H2 rev prefix ix Hix ops Hl.
+  destruct (iterator_refines shf1 n1 H1 kind1 rev prefix ix Hix ops Hl) as [A1 A2].
+  destruct (iterator_refines shf2 n2 H2 kind2 rev prefix ix Hix ops Hl) as [B1 B2].
+  cbv zeta. split; congruence.
+Qed.
+Print Assumptions C14_iteration_independent_of_index_type_and_sharding.
 
 Example C14_nonvacuous :
   map erase [OpPut [1] [2]; OpRestart (mkCfg 64 1 0 1); OpGet [1]]
